@@ -78,7 +78,9 @@ def check_case(c, rep, tag="bin", pinned=None):
         exp_tn = ""
         exp_addr = "0"
         if call["deps_usable"]:
-            if call["deps_kind"].startswith("concrete"):
+            if call["deps_kind"] == "concrete_val":
+                exp_tn, exp_addr = facts["plain_tn"], (facts["plain_tag"] if call["recv"] == "plain" else facts["app_tag"])
+            elif call["deps_kind"].startswith("concrete"):
                 exp_tn, exp_addr = facts["plain_tn"], (facts["plain_addr"] if call["recv"] == "plain" else facts["app_addr"])
             elif call["deps_kind"].endswith("_val"):
                 exp_tn, exp_addr = facts["app_tn"], facts["app_tag"]
